@@ -258,15 +258,44 @@ impl<T: std::cmp::PartialEq + std::fmt::Display + std::fmt::Debug + std::clone::
         let trace_length = self.compute_name_hints();
         let mut trace = Vec::new();
         let mut struct_names = StructNames::default();
-        let struct_name =
-            struct_names.reserve(self.expand_name(&[self.formatted_name()], &trace_length));
+        let mut path = Vec::new();
+        self.reserve_struct_names(&mut struct_names, &mut path, &mut trace, &trace_length);
         self.inner_to_serde_struct(
             options,
             &mut trace,
             &trace_length,
-            &mut struct_names,
-            struct_name,
+            &struct_names,
+            &mut path,
         )
+    }
+
+    /// reserve the struct names of this element and all elements below in document order,
+    /// so that the names do not depend on the order in which the structs are rendered later
+    fn reserve_struct_names(
+        &self,
+        struct_names: &mut StructNames,
+        path: &mut Vec<String>,
+        trace: &mut Vec<String>,
+        trace_length: &HashMap<String, usize>,
+    ) {
+        trace.push(self.formatted_name());
+        path.push(self.name.to_string());
+
+        struct_names.reserve(path, self.expand_name(trace, trace_length));
+
+        let mut children: Vec<&Necessity<Element<T>>> = self.children.iter().collect();
+        children.sort_by_key(|c| c.inner_t().position);
+
+        for child in children {
+            if !child.inner_t().contains_only_text() {
+                child
+                    .inner_t()
+                    .reserve_struct_names(struct_names, path, trace, trace_length);
+            }
+        }
+
+        path.pop();
+        trace.pop();
     }
 
     /// generate a String representing this element and all children elements recursivly as series of Rust structs
@@ -276,19 +305,20 @@ impl<T: std::cmp::PartialEq + std::fmt::Display + std::fmt::Debug + std::clone::
         options: &Options,
         trace: &mut Vec<String>,
         trace_length: &HashMap<String, usize>,
-        struct_names: &mut StructNames,
-        struct_name: String,
+        struct_names: &StructNames,
+        path: &mut Vec<String>,
     ) -> String {
         let mut serde_struct = String::new();
         let mut serde_child_struct = String::new();
 
         trace.push(self.formatted_name());
+        path.push(self.name.to_string());
 
         if !options.derive.is_empty() {
             serde_struct.push_str(&format!("#[derive({})]\n", options.derive));
         }
 
-        serde_struct.push_str(&format!("pub struct {} {{\n", struct_name));
+        serde_struct.push_str(&format!("pub struct {} {{\n", struct_names.get(path)));
 
         let mut used_attr_names = vec![];
 
@@ -371,9 +401,10 @@ impl<T: std::cmp::PartialEq + std::fmt::Display + std::fmt::Debug + std::clone::
             let mut child_struct_name = String::new();
             if !text_only_element {
                 trace.push(child.inner_t().formatted_name());
-                // the name is reserved once and used for the field type and the struct definition
-                child_struct_name =
-                    struct_names.reserve(child.inner_t().expand_name(trace, trace_length));
+                // the name was reserved once and is used for the field type and the struct definition
+                path.push(child.inner_t().name.to_string());
+                child_struct_name = struct_names.get(path);
+                path.pop();
             }
 
             if child.inner_t().standalone() {
@@ -436,7 +467,7 @@ impl<T: std::cmp::PartialEq + std::fmt::Display + std::fmt::Debug + std::clone::
                     trace,
                     trace_length,
                     struct_names,
-                    child_struct_name,
+                    path,
                 ));
             }
         }
@@ -445,23 +476,24 @@ impl<T: std::cmp::PartialEq + std::fmt::Display + std::fmt::Debug + std::clone::
 
         serde_struct.push_str(&serde_child_struct);
 
+        path.pop();
         trace.pop();
 
         serde_struct
     }
 }
 
-/// struct names that are already taken in the generated output
+/// struct names of the generated output, stored by the path of element names that leads to the element
 /// makes sure that each struct gets a unique name that is a legal type identifier
 #[derive(Default)]
 struct StructNames {
-    used: Vec<String>,
+    names: Vec<(Vec<String>, String)>,
 }
 
 impl StructNames {
-    /// return the given name, or the name followed by a number if it is already in use,
-    /// not a valid identifier or would shadow a type that is used by the generated fields
-    fn reserve(&mut self, name: String) -> String {
+    /// store the given name for the element at the given path, or the name followed by a number if it is
+    /// already in use, not a valid identifier or would shadow a type that is used by the generated fields
+    fn reserve(&mut self, path: &[String], name: String) {
         let base = if name.is_empty() {
             "_".to_string()
         } else {
@@ -471,14 +503,21 @@ impl StructNames {
         let mut i = 0;
 
         while ["_", "Self", "String", "Option", "Vec"].contains(&unused_name.as_str())
-            || self.used.contains(&unused_name)
+            || self.names.iter().any(|(_, n)| n == &unused_name)
         {
             i += 1;
             unused_name = format!("{}{}", base, i);
         }
 
-        self.used.push(unused_name.clone());
-        unused_name
+        self.names.push((path.to_vec(), unused_name));
+    }
+
+    /// return the name that was reserved for the element at the given path
+    fn get(&self, path: &[String]) -> String {
+        match self.names.iter().find(|(p, _)| p == path) {
+            Some((_, name)) => name.clone(),
+            None => String::new(),
+        }
     }
 }
 
